@@ -27,7 +27,7 @@ func instant(t time.Time, digits int) string {
 var styles = []idp.Style{idp.DefaultStyle, {P: "p", A: "a"}, {P: "", A: "saml"}, {P: "samlp", A: ""}, {P: "samlp", A: "saml", Decl: true}, {P: "samlp", A: "saml", Indent: true}, {P: "samlp", A: "saml", SingleQuote: true},
 	{P: "saml2p", A: "saml2", Decl: true, Indent: true}}
 var encStyles = []string{"", "lower", "pct20", "lower+pct20", "all"}
-var relays = []string{"", "relay-1", "a b&c=d", "https://sp.example/deep?x=1&y=2#frag", "ü€😀 ~*'()", "x+y/z=="}
+var relays = []string{"", strings.Repeat("r", 80), "https://sp.example/deep/" + strings.Repeat("p", 56), "relay-1", "a b&c=d", "https://sp.example/deep?x=1&y=2#frag", "ü€😀 ~*'()", "x+y/z=="}
 
 func pick[T any](r *rand.Rand, xs []T) T { return xs[r.Intn(len(xs))] }
 
@@ -116,6 +116,12 @@ func authnScenarios(r *rand.Rand, n int) []*sso.Scenario {
 				s.Want = pick(r, []string{"", "false", "0"})
 			}
 			s.SP = sso.BaseSP(flag, withCert)
+			if r.Intn(3) == 0 {
+				// entity IDs are opaque, case-sensitive strings: URLs with capitals, URNs
+				eid := pick(r, []string{"https://SP.Example.com/Saml2/Metadata", "urn:Example:SP:Portal", "https://sp.example/metadata/", "https://sp.example:8443/md?tenant=A"})
+				s.SP.EntityID = eid
+				s.Req.Issuer = idp.S(eid)
+			}
 			if withCert && r.Intn(3) == 0 {
 				s.SP.Certs[0].Use = "" // a KeyDescriptor without a use attribute serves both signing and encryption
 			}
@@ -321,6 +327,6 @@ func Run(dir, tier string, seed int64) error {
 			id++
 		}
 	}
-	rule := "AuthnRequest: the full grid binding {Redirect, POST} x signing {none, rsa-sha1, rsa-sha256} x percent-encoding style {upper-case hex with +, lower-case hex, %20 for space, both, every byte escaped} x signing required by {nobody, SP metadata (true / 1), IdP (true / 1)}, plus random combinations of 8 serialisation styles (prefixes, default namespace, XML declaration, indentation and comments, single quotes), optional parts (Destination, ProtocolBinding, consumer URL / index, NameIDPolicy, Conditions with none / one / both instants), 0-9 fractional digits, RelayState alphabets, SAMLEncoding present / absent, KeyInfo present / absent, signature after Issuer or last, certificate text wrapped in the request or in the registered metadata, KeyDescriptor with use=\"signing\" or without a use attribute. LogoutRequest: 8 styles x optional attributes and SessionIndex x {POST, POST signed, Redirect, Redirect with SAMLEncoding, Redirect signed} x encoding styles. AttributeQuery: 3 SOAP envelope styles x optional Destination / requested attributes x unsigned / enveloped-signed. Every one must be accepted (303 to login with exactly one persisted request; status Success); the AuthnRequests also run through the Coq SSO model. distinct = (stream / kind, style, encoding)."
+	rule := "AuthnRequest: the full grid binding {Redirect, POST} x signing {none, rsa-sha1, rsa-sha256} x percent-encoding style {upper-case hex with +, lower-case hex, %20 for space, both, every byte escaped} x signing required by {nobody, SP metadata (true / 1), IdP (true / 1)}, plus random combinations of 8 serialisation styles (prefixes, default namespace, XML declaration, indentation and comments, single quotes), optional parts (Destination, ProtocolBinding, consumer URL / index, NameIDPolicy, Conditions with none / one / both instants), 0-9 fractional digits, RelayState alphabets (incl. exactly 80 bytes), entity IDs with capitals / URN / port / query, SAMLEncoding present / absent, KeyInfo present / absent, signature after Issuer or last, certificate text wrapped in the request or in the registered metadata, KeyDescriptor with use=\"signing\" or without a use attribute. LogoutRequest: 8 styles x optional attributes and SessionIndex x {POST, POST signed, Redirect, Redirect with SAMLEncoding, Redirect signed} x encoding styles. AttributeQuery: 3 SOAP envelope styles x optional Destination / requested attributes x unsigned / enveloped-signed. Every one must be accepted (303 to login with exactly one persisted request; status Success); the AuthnRequests also run through the Coq SSO model. distinct = (stream / kind, style, encoding)."
 	return sso.RunWith("C07", dir, tier, seed, scenarios, rule, extra, oracle)
 }
